@@ -54,6 +54,15 @@ Print Assumptions C19_old_acceptConn_refuted.
    after connectPeerToLeader in connectPeer; key
    c19:thread-creation-order:unmodelled:...) and runs slow-leader-link scenarios
    (one party's data from the leader delayed by 100..400 ms).
+   USABLE FROM THE MOMENT CONNECT RETURNS: the theorem speaks about the tables.
+   That the byte stream of a link is continuous across the handshake — the
+   accepting side consumes exactly the hello and loses no byte the dialler
+   queued behind it (no read-ahead into a discarded buffer) — is NOT part of
+   the model (a link carries one hello and the leader's info, nothing else); it
+   is tied by harness c19: in every scenario each party sends a tagged message
+   on every connection immediately after its own Connect returns, and it must
+   be the first thing the other end receives on the matching (peer, index)
+   (key c19:early-data-lost:party<i>-><j>:conn<k>).
    TIME IS NOT MODELLED: a schedule is just an interleaving, so the theorem
    holds whatever real-time delay lies between two steps — in particular
    between a party's Join and its Connect, between an accept and the arrival of
